@@ -1,4 +1,5 @@
 import SideVerif.Drive.C10
+import SideVerif.Drive.Cal
 open Lean
 namespace SideVerif.Drive
 
@@ -6,6 +7,8 @@ def dispatch (op : String) (j : Json) : Except String Json :=
   match op with
   | "c10.hist" => c10Hist j
   | "c10.all" => c10All j
+  | "cal.trunc" => calTrunc j
+  | "cal.compat" => calCompat j
   | "ping" => pure (Json.str "pong")
   | _ => throw s!"unknown op {op}"
 
